@@ -6,6 +6,7 @@ import (
 	"encoding/binary"
 	"fmt"
 	"regexp/syntax"
+	"slices"
 
 	"github.com/grafana/regexp"
 
@@ -90,4 +91,22 @@ func VerifWordFastPath(word string) bool {
 	}
 	_, ok := regexpToWordMatchTree(&query.Regexp{Regexp: re, CaseSensitive: true}, matchTreeOpt{})
 	return ok
+}
+
+// VerifSelectNgrams runs the trigram selection of iterateNgrams (splitNGrams, sort, indexMap, findSelectiveNgrams) on a
+// pattern with the given frequencies (frequencies[i] belongs to the i-th trigram in SORTED order, as in iterateNgrams)
+// and returns the pattern positions of the two selected trigrams, and whether each selected entry's ngram is the
+// pattern's trigram at that position.
+func VerifSelectNgrams(pattern string, frequencies []uint32) (first, last int, genuine bool) {
+	ngramOffs := splitNGrams([]byte(pattern))
+	orig := append([]runeNgramOff(nil), ngramOffs...)
+	slices.SortFunc(ngramOffs, runeNgramOff.Compare)
+	indexMap := make([]int, len(ngramOffs))
+	for i, o := range ngramOffs {
+		indexMap[o.index] = i
+	}
+	f, l := findSelectiveNgrams(ngramOffs, indexMap, frequencies)
+	genuine = f.index >= 0 && f.index < len(orig) && l.index >= 0 && l.index < len(orig) &&
+		orig[f.index].ngram == f.ngram && orig[l.index].ngram == l.ngram
+	return f.index, l.index, genuine
 }
